@@ -8,7 +8,11 @@ import (
 // writeCoverage flushes coverage counters when the binary was built with -cover (tools/coverage.sh)
 func writeCoverage() {
 	if d := os.Getenv("VERIF_COVDIR"); d != "" {
-		_ = coverage.WriteMetaDir(d)
-		_ = coverage.WriteCountersDir(d)
+		if err := coverage.WriteMetaDir(d); err != nil {
+			os.Stderr.WriteString("coverage meta: " + err.Error() + "\n")
+		}
+		if err := coverage.WriteCountersDir(d); err != nil {
+			os.Stderr.WriteString("coverage counters: " + err.Error() + "\n")
+		}
 	}
 }
